@@ -396,3 +396,64 @@ Theorem attached_seed_example :
                 Tree_set_seed_node_obj 1 (Some 1) s0 = Ok (tt, s').
 Proof. exact ex_attached_seed. Qed.
 Print Assumptions attached_seed_example.
+
+(* ===== wave 8: refused calls inside a history (Model/C15World.v step SRefused, Proofs/C15Refused.v) =====
+   The caller calls p.remove_child(n) with n not a child of p, or p.add_child(n) with n = p or n = p's parent,
+   catches the documented error and carries on.  run_steps_r runs such a history: a refused step must raise
+   exactly its documented error and the history goes on from the store the call started from. *)
+From DV Require Import Proofs.C15Refused.
+
+(* the refused argument classes are refused (by the generated add_child and the transcribed remove_child) *)
+Theorem remove_child_of_a_non_child_is_refused :
+  forall (p n : Z) (s : store) (rp : nrec) (c : list Z),
+    node_of s p = Some rp -> list_of s (n_kids rp) = Some c -> C15WorldPrims.memZ n c = false ->
+    remove_child p n s = Err ValueErr.
+Proof. exact remove_child_refused. Qed.
+Print Assumptions remove_child_of_a_non_child_is_refused.
+
+Theorem add_child_of_itself_is_refused :
+  forall (p : Z) (s : store), Node_add_child_obj p p s = Err AssertErr.
+Proof. exact add_child_self_refused. Qed.
+Print Assumptions add_child_of_itself_is_refused.
+
+Theorem add_child_of_own_parent_is_refused :
+  forall (p n : Z) (s : store) (rp : nrec),
+    node_of s p = Some rp -> n_parent rp = Some n -> Node_add_child_obj p n s = Err AssertErr.
+Proof. exact add_child_parent_refused. Qed.
+Print Assumptions add_child_of_own_parent_is_refused.
+
+(* a refused operation changes nothing: the rest of the history runs from the very store the refused call
+   started from (so kids_of / parent_of, hence the object graph WG s every traversal machine runs on, are the
+   ones before the call) *)
+Theorem refused_call_frame :
+  forall (k : refused_kind) (p n : Z) (r : list step) (s : store) (x : unit * store),
+    run_steps_r (SRefused k p n :: r) s = Ok x ->
+    do_step (SRefused k p n) s = Err (refused_err k) /\ run_steps_r r s = Ok x.
+Proof. exact refused_step_frame. Qed.
+Print Assumptions refused_call_frame.
+
+(* the correspondence check demands just that of the library: after a refused step every observed probe is
+   what the traversal machines compute on the store BEFORE the call *)
+Theorem refused_step_checked_against_the_store_before :
+  forall (k : refused_kind) (p n : Z) (sr : list step) (r : hrec) (rr : list hrec) (s : store),
+    steps_ok s (SRefused k p n :: sr) (r :: rr) = true ->
+    do_step (SRefused k p n) s = Err (refused_err k) /\ rec_ok s r = true /\ steps_ok s sr rr = true.
+Proof. exact steps_ok_refused. Qed.
+Print Assumptions refused_step_checked_against_the_store_before.
+
+(* no_list_object_shared over histories WITH refused calls *)
+Theorem no_list_object_shared_with_refused_calls :
+  forall (ts : list tree) (sts : list step) (s0 s : store),
+    build_world ts empty_store = Ok (tt, s0) ->
+    run_steps_r sts s0 = Ok (tt, s) ->
+    NoDup (owned s) /\ (forall o, In o (owned s) -> o < s_next s).
+Proof. exact sep_history_r. Qed.
+Print Assumptions no_list_object_shared_with_refused_calls.
+
+(* satisfiable: refused calls of every class (a child of another node, the receiver itself, its parent, the seed,
+   add_child of itself / of its parent, a node detached meanwhile) inside a history that also really removes a child *)
+Theorem refused_history_example :
+  exists s0 s, build_world [ex_tree] empty_store = Ok (tt, s0) /\ run_steps_r ex_steps_r s0 = Ok (tt, s) /\
+               kids_of s0 1 = [2; 3] /\ kids_of s 1 = [3] /\ parent_of s 3 = Some 1 /\ parent_of s 2 = None.
+Proof. exact ex_history_r_runs. Qed.
+Print Assumptions refused_history_example.
